@@ -2,7 +2,7 @@
 # tools/confirm_seed.sh Cnn A|B : confirms a sub-agent's seeded change in the scratch worktree /tmp/mut/wt/Cnn
 # (checked out at /repo's current HEAD): patch applies, baseline suite still passes, demo fails with / passes without.
 # On success copies patch.diff, demo_test.go, meta.json to /verif/seeded/Cnn-A/ and appends what was run.
-ID=$1; V=$2; SRC=/tmp/mut/out/$ID/$V; WT=/tmp/mut/wt/$ID
+ID=$1; V=$2; SRC=/tmp/mut/out/$ID/$V; WT=/tmp/mut/wt/$ID-$V
 export GOFLAGS=-mod=mod GOPROXY=off GOSUMDB=off GOTOOLCHAIN=local
 [ -f $SRC/patch.diff ] || { echo "no patch"; exit 2; }
 cd $WT || exit 2
